@@ -254,7 +254,7 @@ Section WithCall.
   Proof.
     revert st keyed st'. induction l as [|a l IH]; intros st keyed st'; cbn [keyed_items].
     - intros H. injection H as <- _. reflexivity.
-    - destruct (call VNull func [a] st) as [kr st1].
+    - destruct (call func func [a] st) as [kr st1].
       destruct kr as [v| | | |]; try discriminate.
       destruct v; try discriminate.
       destruct (keyed_items St call func l st1) as [more st2] eqn:E.
@@ -265,13 +265,13 @@ Section WithCall.
   (* every recorded key is what the callback returned for that item (for a callback whose
      result does not depend on the state) *)
   Lemma keyed_items_keys func l st keyed st' (key : value -> string) :
-    (forall x s, fst (call VNull func [x] s) = Ok (VStr (key x))) ->
+    (forall x s, fst (call func func [x] s) = Ok (VStr (key x))) ->
     keyed_items St call func l st = (Ok keyed, st') -> keyed = map (fun x => (key x, x)) l.
   Proof.
     intros Hkey. revert st keyed st'. induction l as [|a l IH]; intros st keyed st'; cbn [keyed_items].
     - intros H. injection H as <- _. reflexivity.
     - pose proof (Hkey a st) as Ha.
-      destruct (call VNull func [a] st) as [kr st1]. cbn [fst] in Ha. subst kr.
+      destruct (call func func [a] st) as [kr st1]. cbn [fst] in Ha. subst kr.
       destruct (keyed_items St call func l st1) as [more st2] eqn:E.
       destruct more as [m| | | |]; cbn; try discriminate.
       intros H. injection H as <- _. cbn [map]. f_equal. eapply IH; eassumption.
